@@ -315,7 +315,7 @@ impl CodeCompletionProvider {
 		if line.starts_with("*") {
 			return ans;
 		}
-		if pos.character as usize > line.len() {
+		if pos.character as usize > line.len() || !line.is_char_boundary(pos.character as usize) {
 			return Vec::new();
 		}
 		let line_prefix = &line[0..pos.character as usize];
